@@ -403,6 +403,13 @@ Definition effective_nooa (cond_nooa sess_nooa : option Z) : Z :=
   let c := match cond_nooa with Some t => t | None => 0 end in
   match sess_nooa with Some t => if 0 <? t then t else c | None => c end.
 
+(* authn_statement_ok / condition_ok: validate_on_or_after(t, timeslack = 0) raises ResponseLifetimeExceed
+   when now > t; an absent attribute is not checked.  (t = now is still accepted.) *)
+Definition still_valid (now : Z) (t : option Z) : bool :=
+  match t with Some x => now <=? x | None => true end.
+Definition response_fresh (now : Z) (cond_nooa sess_nooa : option Z) : bool :=
+  still_valid now sess_nooa && still_valid now cond_nooa.
+
 Definition store (st : state) (s : subj) (i : issuer) (nooa : Z) (t : option tok) : state :=
   set_db st (c_set s i {| e_nooa := nooa; e_info := t |} (db st)).
 
@@ -411,7 +418,9 @@ Definition step (w : world) (st : state) (o : op) : state * out :=
   | Login s i nooa t => (store st s i nooa (Some t), OUnit)
   | AcceptResponse s i cn sn t k =>
       match k with
-      | RGood => (store st s i (effective_nooa cn sn) (Some t), OAccepted)
+      | RGood => if response_fresh (now st) cn sn
+                 then (store st s i (effective_nooa cn sn) (Some t), OAccepted)
+                 else (st, ORejected)            (* ResponseLifetimeExceed: nothing is stored *)
       | RBadSig => (st, ORejected)
       | RWrongDest => (st, OShell)
       end
